@@ -67,7 +67,11 @@ fn c22(seed: u64, case: u64, out: &Out) {
             let busy = rng.usize(1, 3);
             // what a busy coroutine does before it starts to spin: the slice it was granted must not shield what comes after
             let prelude = (case / 4) % 4;
+            // a second thread that keeps starting and finishing short coroutines of its own (resumed directly, no scheduler, so nothing
+            // can migrate): what it does to the monitor's bookkeeping must not cost the busy coroutine on the first thread its preemption
+            let helper = (case / 16) % 2 == 1;
             out.begin(case, jobj! {"scenario" => "busy coroutines on one thread, each spinning until the next one in the chain has finished; the last link is a trivial sibling", "busy_coroutines" => busy,
+                "second_thread" => if helper {"runs short coroutines of its own, one after another, while the busy coroutines spin"} else {"none"},
                 "before_spinning" => ["nothing", "a short system call (Running -> Syscall -> Running)", "an early cooperative yield", "an early yield and a short system call"][prelude as usize]});
             let w = Watch::default();
             let mut sch = Scheduler::new(format!("c22-{seed}-{case}"), 128 * 1024);
@@ -116,6 +120,24 @@ fn c22(seed: u64, case: u64, out: &Out) {
                     None,
                 )
                 .expect("submit");
+            let helper_stop = Arc::new(AtomicBool::new(false));
+            let helper_ran = Arc::new(AtomicUsize::new(0));
+            let helper_thread = helper.then(|| {
+                let (stop, ran, b) = (helper_stop.clone(), helper_ran.clone(), burned.clone());
+                std::thread::spawn(move || {
+                    // wait until a busy coroutine is spinning on the other thread
+                    let t = Instant::now();
+                    while b.iter().all(|x| x.load(Ordering::Relaxed) == 0) && t.elapsed() < Duration::from_secs(3) {
+                        std::thread::sleep(Duration::from_micros(200));
+                    }
+                    while !stop.load(Ordering::SeqCst) && t.elapsed() < Duration::from_secs(10) {
+                        let mut co: SchedulableCoroutine = open_coroutine_core::coroutine::Coroutine::new(None, |_, ()| Some(1usize), None, None).expect("new");
+                        let _ = co.resume();
+                        ran.fetch_add(1, Ordering::SeqCst);
+                        std::thread::sleep(Duration::from_micros(500));
+                    }
+                })
+            });
             let t0 = Instant::now();
             let mut results: std::collections::HashMap<u64, Result<Option<usize>, String>> = std::collections::HashMap::new();
             while results.len() < busy + 1 && t0.elapsed() < Duration::from_secs(12) {
@@ -127,10 +149,15 @@ fn c22(seed: u64, case: u64, out: &Out) {
                     }
                 }
             }
+            helper_stop.store(true, Ordering::SeqCst);
+            if let Some(h) = helper_thread {
+                let _ = h.join();
+            }
             let log = w.log.lock().unwrap().clone();
             preemptions = log.iter().filter(|(o, n)| o == "Running" && n == "Suspend").count();
             let worst = burned.iter().map(|b| b.load(Ordering::Relaxed)).max().unwrap_or(0);
-            obs = jobj! {"results" => results.len(), "preemptions_observed" => preemptions, "worst_cpu_burned_without_the_chain_advancing_ms" => worst / 1_000_000, "wall_ms" => t0.elapsed().as_millis() as u64};
+            obs = jobj! {"results" => results.len(), "preemptions_observed" => preemptions, "worst_cpu_burned_without_the_chain_advancing_ms" => worst / 1_000_000, "wall_ms" => t0.elapsed().as_millis() as u64,
+                "coroutines_run_by_the_second_thread" => helper_ran.load(Ordering::SeqCst)};
             if viol.is_none() && results.len() < busy + 1 {
                 viol = Some(("busy-coroutine-never-preempted".into(), format!("{} of {} coroutines finished in 12 s; a busy coroutine burned {} ms of CPU while its sibling waited", results.len(), busy + 1, worst / 1_000_000)));
             } else if viol.is_none() && worst > 500_000_000 * busy as u64 {
